@@ -316,3 +316,63 @@ Proof.
   - unfold sorted_chain, legacy_witness. cbn. repeat split; lia.
   - cbv. discriminate.
 Qed.
+
+(** * [iter_patches] before the repair of the gap test
+    [let start_diff = pos_marker.templated_slice.start - templated_idx; if start_diff > 0 || ..] on [usize]:
+    a build without overflow checks wraps, so the test is [start <> templated_idx] (this definition); a build
+    with overflow checks panics as soon as a child starts before the running index. *)
+Fixpoint iter_patches_legacy (tf : tfile) (s : seg) : list patch :=
+  match s with
+  | Leaf _ r p =>
+      if str_eqb r (sub (tpl tf) (t0 p) (t1 p)) then []
+      else if is_literal (rawsl tf) (s0 p) (s1 p) then [mkPatch (s0 p) (s1 p) r]
+      else []
+  | Node _ p sfx cs =>
+      let r := flat_map raw cs in
+      if str_eqb r (sub (tpl tf) (t0 p) (t1 p)) then sfx
+      else if is_literal (rawsl tf) (s0 p) (s1 p) then sfx ++ [mkPatch (s0 p) (s1 p) r]
+      else
+        match cs with
+        | [] => []
+        | _ =>
+          (fix loop (l : list seg) (k : nat) (sidx tidx : N) (buf : str) {struct l} : list patch :=
+             match l with
+             | c :: l' =>
+                 match k with
+                 | S k' =>
+                     let cp := seg_pos c in
+                     if negb (is_empty (raw c)) && is_point cp then
+                       loop l' k' sidx tidx (buf ++ raw c)
+                     else
+                       let fp := first_leaf_pos c in
+                       let gap := if negb (t0 cp =? tidx) || negb (is_empty buf)
+                                  then [mkPatch sidx (s0 fp) buf] else [] in
+                       gap ++ iter_patches_legacy tf c ++ loop l' k' (s1 cp) (t1 cp) []
+                 | O =>
+                     if negb (t1 p =? tidx) || negb (is_empty buf)
+                     then [mkPatch sidx (s1 p) buf] else []
+                 end
+             | [] =>
+                 if negb (t1 p =? tidx) || negb (is_empty buf)
+                 then [mkPatch sidx (s1 p) buf] else []
+             end) cs (n_keep cs) (s0 p) (t0 p) []
+        end
+  end.
+
+(** ":x,a" rendered "1,a"; a tree whose children were reordered to "a,1" (a rule moved code backwards under
+    an ancestor that holds the placeholder): the second child starts before the running templated index. The
+    wrapped subtraction reads that as a gap and emits the patch 4..2 - an inverted source range; the
+    comparison emits no gap there and every patch has a well-formed range. *)
+Definition w_gap_tf : tfile := mkTf [58;120;44;97] [49;44;97] [(0, true); (0, false); (2, true)].
+Definition w_gap_tree : seg :=
+  Node false (mkPos 0 4 0 3) []
+    [Leaf false [97] (mkPos 3 4 2 3); Leaf false [44] (mkPos 2 3 1 2); Leaf false [49] (mkPos 0 2 0 1)].
+Lemma iter_patches_legacy_refuted :
+  exists tf t, (exists p, In p (iter_patches_legacy tf t) /\ p_e p < p_s p) /\
+               (forall q, In q (iter_patches tf t) -> p_s q <= p_e q).
+Proof.
+  exists w_gap_tf, w_gap_tree. split.
+  - exists (mkPatch 4 2 []). split; [vm_compute; tauto | vm_compute; reflexivity].
+  - intros q Hq. vm_compute in Hq.
+    repeat (destruct Hq as [<-|Hq]; [vm_compute; discriminate|]). destruct Hq.
+Qed.
